@@ -91,6 +91,12 @@ class RangeAdapt(Opaque):
         self.rng, self.kind, self.clo, self.steps = rng, kind, clo, 0
 
 
+class ListFilter(Opaque):
+    """slice / Vec iterator behind .filter(f): consumed by min / max / count / last"""
+    def __init__(self, it, clo):
+        self.it, self.clo = it, clo
+
+
 class ListVal(Opaque):
     """Vec<T> for T other than u8: a concrete-length list of cells (lengths never depend on symbolic data except through forks)"""
     def __init__(self, items=None, name='vec'):
@@ -436,7 +442,71 @@ def common_summaries():
 
     @reg(r'^Vec::<(?!u8>).*>::iter$|^core::slice::<impl \[(?!u8\]).*\]>::iter$')
     def list_iter(ex, st, fn, argv):
-        return [(st, ListIter(deref(ex, st, argv[0]).items, True))]
+        v = deref(ex, st, argv[0])
+        if isinstance(v, Agg):
+            # a fixed-size array (or a slice of one): its elements in index order
+            idx = sorted(k for k in v.fields if isinstance(k, int))
+            return [(st, ListIter([Cell(v.fields[k], 'elem') for k in idx], True))]
+        return [(st, ListIter(v.items, True))]
+
+    @reg(r'^<(std::|core::)?slice::Iter<.*> as Iterator>::(copied|cloned)(::<.*>)?$')
+    def list_iter_copied(ex, st, fn, argv):
+        it = argv[0] if isinstance(argv[0], ListIter) else deref(ex, st, argv[0])
+        if not isinstance(it, ListIter):
+            return NotImplemented
+        out = ListIter([Cell(value_copy(c.value), 'elem') for c in it.items], False)
+        out.pos = it.pos
+        return [(st, out)]
+
+    @reg(r'^<.* as Iterator>::filter::<')
+    def list_filter(ex, st, fn, argv):
+        it = argv[0]
+        if not isinstance(it, ListIter):
+            return NotImplemented
+        return [(st, ListFilter(it, argv[1]))]
+
+    def list_filter_fold(ex, st, lf, kept, kind):
+        """min / max / count / last of a filtered list: the predicate is executed from MIR on each remaining element"""
+        it = lf.it
+        if it.pos >= len(it.items):
+            if kind == 'count':
+                return [(st, Int(len(kept), 64, False))]
+            if not kept:
+                return [(st, mk_option())]
+            if kind == 'last':
+                return [(st, mk_option(kept[-1]))]
+            acc = kept[0]
+            for v in kept[1:]:
+                if not (isinstance(v, Int) and isinstance(acc, Int)):
+                    raise Unsupported(f"{kind} of non-integer elements")
+                lt = (v.bv < acc.bv) if acc.signed else z3.ULT(v.bv, acc.bv)
+                ge = (v.bv >= acc.bv) if acc.signed else z3.UGE(v.bv, acc.bv)
+                # Iterator::min returns the first of equal minima, max the last of equal maxima
+                acc = Int(z3.If(lt if kind == 'min' else ge, v.bv, acc.bv), acc.width, acc.signed)
+            return [(st, mk_option(acc))]
+        it.pos += 1
+        c = it.items[it.pos - 1]
+        elem = Ref(c) if it.by_ref else c.value
+        def post(ex_, st_, rv, lf=lf, kept=kept, elem=elem):
+            return ('REDISPATCH', '__verif::list_filter_after', [rv, Agg({0: lf, 1: ListVal([Cell(k, 'kept') for k in kept]), 2: elem}, 'tuple'), Str(kind) if False else Agg({}, kind)])
+        return [(st, ('CALL', lf.clo, [Ref(Cell(elem, 'filter.elem'))], ('custom', post)))]
+
+    @reg(r'^<(std::iter::|core::iter::)?Filter<.*> as Iterator>::(min|max|count|last)(::<.*>)?$')
+    def list_filter_min(ex, st, fn, argv):
+        lf = argv[0]
+        if not isinstance(lf, ListFilter):
+            return NotImplemented
+        return list_filter_fold(ex, st, lf, [], re.search(r'>::(min|max|count|last)(::<.*>)?$', fn).group(1))
+
+    @reg(r'^__verif::list_filter_after$')
+    def list_filter_after(ex, st, fn, argv):
+        outs = []
+        kind = argv[2].ty
+        for (s, c, keep) in ex.fork_on(st, argv[0].b, (argv[1],)):
+            lf, keptv, elem = c[0].fields[0], c[0].fields[1], c[0].fields[2]
+            kept = [k.value for k in keptv.items] + ([elem] if keep else [])
+            outs += list_filter_fold(ex, s, lf, kept, kind)
+        return outs
 
     @reg(r'^Vec::<(?!u8>).*>::drain::<(std::ops::)?RangeFull>$')
     def list_drain(ex, st, fn, argv):
